@@ -304,6 +304,11 @@ func (s *EMTState) edgeMultiComputeRecordSpecs(raw []RawType, frameIndexOfraw0 F
 	recordSpecs := make([]RecordSpec, 0)
 	if iFirst < maxLookback { // state has been reset
 		iFirst = maxLookback
+		if s.enableZeroThreshold {
+			// The kink model can move a trigger one sample earlier than the edge it refines;
+			// leave room so that such a record still has all its pre-trigger samples.
+			iFirst++
+		}
 		if s.iFirstCheckSentinel {
 			log.Println("reseting edge multi state unexpectedly")
 		}
